@@ -102,6 +102,36 @@ def find_roles(ctx):
     return roles
 
 
+def reader_shape(ctx, R):
+    """None when the index reader returns the index alone; otherwise the position of the index in the pair it returns
+    (the component computed by get_index_from_selfies; the other one is its count of symbols read)"""
+    key = ("reader_shape", R.qual)
+    if key in ctx.cache:
+        return ctx.cache[key]
+    from sa.db import own_nodes
+    qnames = set()
+    for n in own_nodes(R.node):
+        if isinstance(n, ast.Assign) and isinstance(n.value, ast.Call) and unparse(n.value.func).endswith("get_index_from_selfies"):
+            qnames |= {t.id for t in n.targets if isinstance(t, ast.Name)}
+
+    def is_q(e):
+        return (isinstance(e, ast.Call) and unparse(e.func).endswith("get_index_from_selfies")) or (isinstance(e, ast.Name) and e.id in qnames)
+    shapes = set()
+    for r in own_nodes(R.node):
+        if isinstance(r, ast.Return) and r.value is not None:
+            if isinstance(r.value, ast.Tuple) and len(r.value.elts) == 2:
+                hit = [i for i, e in enumerate(r.value.elts) if is_q(e)]
+                shapes.add(hit[0] if len(hit) == 1 else "?")
+            elif is_q(r.value):
+                shapes.add(None)
+            else:
+                shapes.add("?")
+    if len(shapes) != 1 or "?" in shapes:
+        raise AnalysisError("return shape of the index reader %s not recognised" % R.qual)
+    ctx.cache[key] = next(iter(shapes))
+    return ctx.cache[key]
+
+
 class Event:
     __slots__ = ("kind", "data", "node")
 
@@ -190,7 +220,18 @@ class DecHooks(Hooks):
             s2 = self.tag(st, Event("read-index", {"Q": q, "args": bound}, node))
             s2.add_lin(ge(Lin.var(q), 0))
             s2.epoch += 1
-            return [(s2, Num(Lin.var(q)))]
+            shape = reader_shape(self.ctx, callee)
+            if shape is None:
+                return [(s2, Num(Lin.var(q)))]
+            # (Q, number of symbols actually read): 0 <= read <= requested
+            k = ("nread", n)
+            s2.add_lin(ge(Lin.var(k), 0))
+            want = [v for v in bound.values() if isinstance(v, Num)]
+            if len(want) == 1:
+                s2.add_lin(le(Lin.var(k), want[0].lin))
+            items = [Num(Lin.var(k)), Num(Lin.var(k))]
+            items[shape] = Num(Lin.var(q))
+            return [(s2, Tup(items))]
         if callee is R["D"] and fr.func is R["D"]:
             bound = eng.bind_args(callee, args, kwargs) or {}
             n = next(eng.counter)
